@@ -144,10 +144,16 @@ class StructV(V):
 
 class EnumV(V):
     """enum value: tags = frozenset of possible variant indices, payload: dict idx -> StructV"""
-    __slots__ = ('ty', 'tags', 'payload', 'names')
+    __slots__ = ('ty', 'tags', 'payload', 'names', 'eid')
 
-    def __init__(self, ty, tags, payload, names=None):
+    def __init__(self, ty, tags, payload, names=None, eid=None):
         self.ty, self.tags, self.payload, self.names = ty, frozenset(tags), payload, names
+        if eid is None and len(self.tags) > 1:
+            eid = next(_sym_counter)
+        self.eid = eid
+
+    def narrowed(self, tags):
+        return EnumV(self.ty, tags, self.payload, self.names, self.eid)
 
     def __repr__(self):
         return 'enum(%s tags=%s %s)' % (self.ty.split('<')[0].split('::')[-1], sorted(self.tags),
